@@ -287,6 +287,103 @@ def permuter_names(ctx, m):
     return out
 
 
+
+def final_sort_never_skipped(ctx, base_tq, rule='final-sort-not-skipped'):
+    """The results are reported in the order the `sorting` argument names: on every normal path of the final-sort member the
+    result arrays are re-arranged (swapped with the permuted copies).  A return that skips the permutation is accepted only in
+    the cached-order idiom -- guarded by `rule == TAG` for a field TAG of the rule type -- and then TAG must be re-assigned
+    after every write of the value array anywhere in the class hierarchy (a writer that cannot or does not update TAG makes
+    the skip unsound: the values are no longer in the order TAG names)."""
+    done = 0
+    for comp in ctx.F.insts(base_tq + '::compute'):
+        m = BaseModel(ctx, comp)
+        for name in sorted(permuter_names(ctx, m)):
+            fn = m.methods[name]
+            if not fn.params:
+                continue
+            ptype = fn.locals[fn.params[0]]['type']
+            if 'SortRule' not in ptype:
+                continue          # the restart-time reordering (retrieve) is not the final sort
+            done += 1
+            inst = '%s::%s' % (short(base_tq), name)
+            swaps = [x for x in fn.walk() if x['k'] == 'CXXMemberCallExpr' and x.get('callee') == 'swap']
+            sids = set(x['id'] for x in swaps)
+            hit = paths.search(fn, [], stop=lambda n: n['id'] in sids, target=lambda n: n['k'] == 'ReturnStmt',
+                               include_entry=True, exit_is_target=lambda b: True, normal_only=True)
+            if hit is None:
+                ctx.ok(rule, inst, fn.qname, 'every normal path re-arranges the result arrays (%d swaps)' % len(swaps))
+                continue
+            rets = []
+            for r_ in [x for x in fn.walk() if x['k'] == 'ReturnStmt']:
+                if paths.search(fn, [], stop=lambda n: n['id'] in sids, target=lambda n, r_=r_: n['id'] == r_['id'], include_entry=True, normal_only=True) is not None:
+                    rets.append(r_)
+            guard = None
+            if rets:
+                for a in fn.ancestors(rets[-1]):
+                    if a['k'] == 'IfStmt':
+                        guard = a
+                        break
+            tag = None
+            if guard is not None:
+                c = sym(fn, guard['cond'], inline=False)
+                pname = fn.locals[fn.params[0]]['name']
+                if c[0] == '==' and ('P', pname) in c[1:]:
+                    other = [x for x in c[1:] if x != ('P', pname)]
+                    if other and other[0][0] == 'F':
+                        tag = other[0][1]
+            if tag is None:
+                ctx.fail(rule, inst, fn.qname, 'a normal return skips the permutation of the results%s: the values are reported in whatever order they were in' %
+                         (' (under `%s`)' % fn.s(guard['cond']) if guard is not None else ''))
+                continue
+            # cached-order idiom: every writer of the value arrays must leave TAG up to date
+            watched = set()
+            for x in swaps:
+                t = sym(fn, x, inline=False)
+                for y in t[1:]:
+                    if isinstance(y, tuple) and y[0] == 'F':
+                        watched.add(y[1])
+            watched.discard(m.flag)
+            stale = []
+            for g in ctx.F.concrete():
+                if not g.cfg or g.d.get('ctor') or g.d.get('dtor'):
+                    continue
+                if g.record != m.record and not _derives(ctx.F, g.record, m.record):
+                    continue
+                ge = ctx.E.of(g)
+                ws = [a for a in ge.accesses if a.mode == 'w' and a.path and a.path[0] in watched]
+                if not ws:
+                    continue
+                tws = set(a.node for a in ge.accesses if a.mode == 'w' and a.path == (tag,))
+                for a in ws:
+                    pos = g.pos_of(g.nodes[a.node])
+                    if pos is None:
+                        continue
+                    leak = paths.search(g, [pos], stop=lambda n: n['id'] in tws, target=lambda n: n['k'] == 'ReturnStmt',
+                                        exit_is_target=lambda b: True, normal_only=True)
+                    if leak is not None:
+                        stale.append('%s::%s writes %s and returns without updating %s' % (g.record.split('<')[0].replace('Spectra::', ''), g.name, a.path[0], tag))
+                        break
+            ctx.check(not stale, rule, inst, fn.qname,
+                      'the permutation is skipped only when the requested rule equals the order tag %s, and every writer of the values updates the tag' % tag
+                      if not stale else 'the permutation is skipped when the requested rule equals %s, but %s: the tag can be stale and the results are then reported unsorted' %
+                      (tag, '; '.join(sorted(set(stale))[:3])))
+    if done < 1:
+        raise AnalysisBroken('%s: final-sort member not found' % base_tq)
+
+
+def _derives(F, rec, base, depth=0):
+    if depth > 6:
+        return False
+    rs = [r for r in F.records.values() if r['qname'] == rec and not r['dep']]
+    if not rs:
+        return False
+    for b in rs[0].get('bases', []):
+        bn = b if isinstance(b, str) else b.get('type') or b.get('qname') or b.get('name')
+        if bn == base or _derives(F, bn, base, depth + 1):
+            return True
+    return False
+
+
 def coherent_permutation(ctx, base_tq, rule='coherent-permutation'):
     """sort_ritzpair: values, vectors and flags are permuted by the same index vector over the same range,
     the index vector is the ordering of exactly the values being permuted, and results are swapped in."""
